@@ -33,10 +33,23 @@ def build_mdp(spec, dist_kind="dict", cls=None, count_calls=None):
     S, A, sidx, aidx = v.S, v.A, v.sidx, v.aidx
     nsd_cache = {}
 
+    rep = spec.get("repr") or {}
+
+    def as_dist(pairs):
+        """pairs: [(event, prob)] -> distribution in the representation the spec asks for"""
+        if rep.get("dist") == "auto":
+            from msdm.core.distributions import DeterministicDistribution, UniformDistribution
+            pos = [(e, p) for e, p in pairs if p > 0]
+            if len(pairs) == 1 and len(pos) == 1 and pos[0][1] == 1:
+                return DeterministicDistribution(pos[0][0])
+            if len(pos) == len(pairs) > 1 and len({p for _, p in pairs}) == 1 and abs(sum(p for _, p in pairs) - 1) == 0:
+                return UniformDistribution([e for e, _ in pairs])
+        return DictDistribution(dict(pairs))
+
     def next_state_dist(s, a):
         key = (sidx[s], aidx[a])
         outs = v.outs[key]
-        return DictDistribution({S[ns]: p for ns, p, r in outs})
+        return as_dist([(S[ns], p) for ns, p, r in outs])
 
     rew = {}
     for (s, a), outs in v.outs.items():
@@ -46,13 +59,26 @@ def build_mdp(spec, dist_kind="dict", cls=None, count_calls=None):
     def reward(s, a, ns):
         return rew[(sidx[s], aidx[a], sidx[ns])]
 
+    shared = {}
+
     def actions(s):
-        return tuple(A[a] for a in v.avail[sidx[s]])
+        acts = tuple(A[a] for a in v.avail[sidx[s]])
+        if rep.get("actions") == "shared_list":
+            return shared.setdefault(acts, list(acts))   # the same list object for every state with this action set
+        if rep.get("actions") == "list":
+            return list(acts)
+        return acts
 
     def is_absorbing(s):
-        return bool(spec["absorbing"][sidx[s]])
+        flag = spec["absorbing"][sidx[s]]
+        if rep.get("abs") == "int":
+            return int(flag)
+        if rep.get("abs") == "npbool":
+            import numpy as _np
+            return _np.bool_(flag)
+        return bool(flag)
 
-    initial = DictDistribution({S[s]: p for s, p in v.p0})
+    initial = as_dist([(S[s], p) for s, p in v.p0])
     cls = cls or QuickTabularMDP
     mdp = cls(
         next_state_dist=next_state_dist, reward=reward, actions=actions,
@@ -100,12 +126,22 @@ def build_pomdp(spec):
             tot = sum(w for _, w in row)
             obs[(a, ns)] = {OL[o]: w / tot for o, w in row}
 
+    rep = spec.get("repr") or {}
+
+    def as_dist(pairs):
+        if rep.get("dist") == "auto":
+            from msdm.core.distributions import DeterministicDistribution
+            pos = [(e, p) for e, p in pairs if p > 0]
+            if len(pairs) == 1 and len(pos) == 1 and pos[0][1] == 1:
+                return DeterministicDistribution(pos[0][0])
+        return DictDistribution(dict(pairs))
+
     class SpecPOMDP(TabularPOMDP):
         def __init__(self):
             self.discount_rate = v.gamma
 
         def next_state_dist(self, s, a):
-            return DictDistribution({S[ns]: p for ns, p, r in v.outs[(sidx[s], aidx[a])]})
+            return as_dist([(S[ns], p) for ns, p, r in v.outs[(sidx[s], aidx[a])]])
 
         def reward(self, s, a, ns):
             return rew[(sidx[s], aidx[a], sidx[ns])]
@@ -117,9 +153,10 @@ def build_pomdp(spec):
             return DictDistribution({S[s]: p for s, p in v.p0})
 
         def is_absorbing(self, s):
-            return bool(spec["absorbing"][sidx[s]])
+            flag = spec["absorbing"][sidx[s]]
+            return int(flag) if rep.get("abs") == "int" else bool(flag)
 
         def observation_dist(self, a, ns):
-            return DictDistribution(obs[(aidx[a], sidx[ns])])
+            return as_dist(list(obs[(aidx[a], sidx[ns])].items()))
 
     return SpecPOMDP(), v
